@@ -679,11 +679,36 @@ struct C03
                 if (!p || !p->isValid())
                     continue;
                 AccessResult a;
+                std::vector<View> held;
+                a.record = &held;
                 accessPacketHeader(a, *p);
                 const char* cn = accessTyped(a, p->getPayload());
+                a.record = nullptr;
                 c.count("decoder_path_valid_packets");
                 if (!a.badView.empty())
                     c.violation("C03:view-outside-payload", std::string("decoder returned a valid ") + (cn ? cn : "?") + " packet: " + a.detail, in);
+                else
+                {
+                    // the views stay inside the payload of the packet that reported them for as long as the packet is not
+                    // modified: copies of it come and go and the accessors are called again in between
+                    auto copy = std::make_unique<Packet>(*p);
+                    AccessResult b;
+                    accessPacketHeader(b, *p);
+                    accessTyped(b, p->getPayload());
+                    AccessResult again;
+                    checkViews(again, p->getPayload(), held);
+                    copy.reset();
+                    AccessResult after;
+                    checkViews(after, p->getPayload(), held);
+                    c.count("views_rechecked_after_copy_of_packet", held.size());
+                    if (!again.badView.empty() || !after.badView.empty())
+                        c.violation("C03:earlier-view-outside-payload-of-unmodified-packet",
+                                    std::string("decoder returned a valid ") + (cn ? cn : "?") + " packet; after copying it and calling the accessors again: " +
+                                        (again.badView.empty() ? after.detail : again.detail),
+                                    in);
+                    else if (b.digest != a.digest || again.digest != after.digest)
+                        c.violation("C03:accessor-results-change-without-modification", std::string("decoder returned a valid ") + (cn ? cn : "?") + " packet", in);
+                }
             }
             // message-level validity check on an exact-size block, then construction from it
             size_t mlen = f.size() - wire::kCmpHeader;
